@@ -397,3 +397,25 @@ Proof. vm_compute. repeat split. Qed.
 Print Assumptions list_shortcut_refuted.
 Print Assumptions exponent_sign_refuted.
 Print Assumptions float_range_bound_refuted.
+
+(* ------------------------------------------------------------------ seeded change C17-10: the field info of a
+   struct type is kept between loads, and the merge of an embedded struct's section into a NAMED field's info
+   extends the kept info in place ([ProofsF.conf_history true]).  Config { Name; Server Limits; Network } with
+   Network { Server Listen }: the first load succeeds, every later load of the same type — any format, the same
+   document — reports a conflict; without the kept infos all loads agree. *)
+From GZ Require Import C17.ProofsF.
+Definition t_merged : fields :=
+  FCons "Name" None (TPrim KStr)
+ (FCons "Server" None (TStruct (FCons "MaxConns" None (TPrim (KInt W0)) FNil))
+ (FEmbed false false (FCons "Server" None (TStruct (FCons "Host" None (TPrim KStr) FNil)) FNil) FNil)).
+Definition d_merged : doc :=
+  DMap (DMcons "Name" (DStr "svc") (DMcons "Server" (DMap (DMcons "Host" (DStr "h") (DMcons "MaxConns" (DInt 100) DMnil))) DMnil)).
+
+Theorem kept_field_info_refuted :
+  let v := Ok (VStruct [VStr "svc"; VStruct [VInt 100]; VStruct [VStruct [VStr "h"]]]) in
+  conf_history true rf_go [] [(t_merged, FJson, d_merged); (t_merged, FYaml, d_merged); (t_merged, FToml, d_merged)]
+    = [v; Err ETag; Err ETag] /\
+  conf_history false rf_go [] [(t_merged, FJson, d_merged); (t_merged, FYaml, d_merged); (t_merged, FToml, d_merged)]
+    = [v; v; v].
+Proof. vm_compute. split; reflexivity. Qed.
+Print Assumptions kept_field_info_refuted.
